@@ -278,7 +278,7 @@ func CheckC15(run *ev.Run) {
 		sort.Strings(codes)
 		var unstableFn func(k int) bool
 		fail := func(key, what string, extra map[string]interface{}) {
-			if !strings.HasPrefix(key, "exit0:") && unstableFn != nil && unstableFn(6) {
+			if !strings.HasPrefix(key, "exit0:") && unstableFn != nil && unstableFn(40) {
 				return
 			}
 			if extra == nil {
@@ -341,7 +341,7 @@ func CheckC15(run *ev.Run) {
 				return
 			}
 			if real.Failed != model.Exit || !eqStrs(textLines(real.Out), model.Lines) {
-				if unstableFn != nil && unstableFn(8) {
+				if unstableFn != nil && unstableFn(60) {
 					return
 				}
 				run.Broken("corr:C15:"+what, "Lean `execute` and DiffCommand.Execute disagree on "+what,
@@ -410,7 +410,7 @@ func CheckC15(run *ev.Run) {
 		}
 		ms := lab.modelExecute("json", false, R0, sub)
 		run.Traces++
-		if (ms.R != "ok" || !eqStrs(keysOf(ms.Diffs), keysOf(RS)) || ms.Exit != js.Failed) && !unstable(8) {
+		if (ms.R != "ok" || !eqStrs(keysOf(ms.Diffs), keysOf(RS)) || ms.Exit != js.Failed) && !unstable(60) {
 			run.Broken("corr:C15:ignore-subset", "Lean `filterIgnores` and FilterIgnores disagree", s.Replay(map[string]interface{}{"ignore": subS, "real": js.Out, "model": ms.Diffs}))
 		}
 		ts := lab.runCmd(ja, jb, "txt", false, &subS)
